@@ -51,6 +51,7 @@ type Limits struct {
 	NameMax     uint64
 	MaxFileSize uint64
 	WtMax       uint64
+	RtMax       uint64
 	Known       bool
 }
 
@@ -98,6 +99,7 @@ type In struct {
 	SetTm  bool
 	How    int // WRITE stable_how / CREATE mode
 	Cookie uint64
+	BadCookie bool // a cookie the server never issued: any reply is acceptable
 	Dircnt uint64
 	Maxcnt uint64
 }
@@ -116,6 +118,7 @@ type Out struct {
 	Ents    []DirEnt
 	Lim     Limits
 	Crashed bool
+	RPCErr  string // transport-level problem (no reply, undecodable reply, RPC refusal)
 }
 
 func NewModel(rootH string, rootID uint64) *Model {
@@ -254,7 +257,7 @@ func (m *Model) PathOf(o *MObj) string {
 				name = n
 			}
 		}
-		parts = append([]string{name}, parts...)
+		parts = append([]string{escName(name)}, parts...)
 		cur = p
 		if len(parts) > 200 {
 			break
@@ -329,6 +332,12 @@ func (m *Model) validName(n string) bool {
 		return false
 	}
 	return true
+}
+
+// oddName: a name of legal length that contains '/' or NUL. RFC 1813 lets a
+// server refuse or store such names; both outcomes are accepted.
+func (m *Model) oddName(n string) bool {
+	return n != "" && uint64(len(n)) <= m.Lim.NameMax && strings.ContainsAny(n, "/\x00")
 }
 
 func (m *Model) kill(id int) {
@@ -488,6 +497,7 @@ func (m *Model) Step(in *In, out *Out) error {
 			if in.K == "fsinfo" {
 				m.Lim.MaxFileSize = out.Lim.MaxFileSize
 				m.Lim.WtMax = out.Lim.WtMax
+				m.Lim.RtMax = out.Lim.RtMax
 			} else {
 				m.Lim.NameMax = out.Lim.NameMax
 			}
@@ -641,21 +651,33 @@ func (m *Model) stepRead(in *In, out *Out) error {
 	if out == nil {
 		return nil
 	}
-	var want []byte
+	var avail uint64
 	if in.Off < o.Size {
-		n := in.Count
-		if n > o.Size-in.Off {
-			n = o.Size - in.Off
+		avail = in.Count
+		if avail > o.Size-in.Off {
+			avail = o.Size - in.Off
 		}
-		want = m.readRange(o, in.Off, n)
 	}
 	if out.Count != uint64(len(out.Data)) {
 		return mm("read of %s: reply count %d but %d bytes of data", m.PathOf(o), out.Count, len(out.Data))
 	}
-	if m.NoSpace && len(out.Data) < len(want) {
-		// short read (filling a hole needs a block): must be a prefix
-		want = want[:len(out.Data)]
+	got := uint64(len(out.Data))
+	if got > avail {
+		return mm("read of %s off %d count %d (size %d): returned %d bytes, more than the %d available", m.PathOf(o), in.Off, in.Count, o.Size, got, avail)
 	}
+	if got < avail {
+		// a short read is legitimate when space runs out while filling a hole,
+		// or when the request exceeds the announced maximum read size (then at
+		// least that much must come back); it must be a prefix
+		short := m.NoSpace
+		if m.Lim.RtMax > 0 && in.Count > m.Lim.RtMax && got >= m.Lim.RtMax {
+			short = true
+		}
+		if !short {
+			return mm("read of %s off %d count %d (size %d): returned %d bytes, reference has %d", m.PathOf(o), in.Off, in.Count, o.Size, got, avail)
+		}
+	}
+	want := m.readRange(o, in.Off, got)
 	if !bytes.Equal(out.Data, want) {
 		return mm("read of %s off %d count %d (size %d): %s", m.PathOf(o), in.Off, in.Count, o.Size, diffBytes(out.Data, want, in.Off))
 	}
@@ -750,7 +772,11 @@ func (m *Model) stepCreate(in *In, out *Out) error {
 	if d.Kind != kDIR {
 		return expectFail(in, out, "create in a non-directory")
 	}
-	if !m.validName(in.Name) {
+	if m.oddName(in.Name) {
+		if out == nil || out.Status != stOK {
+			return nil
+		}
+	} else if !m.validName(in.Name) {
 		return expectFail(in, out, fmt.Sprintf("%q (%d bytes) is not a legal name (announced name_max %d)", clip(in.Name), len(in.Name), m.Lim.NameMax))
 	}
 	if id, exists := d.Kids[in.Name]; exists {
@@ -894,7 +920,11 @@ func (m *Model) stepRename(in *In, out *Out) error {
 	if !ok {
 		return expectFail(in, out, fmt.Sprintf("no entry %q in %s", clip(in.Name), m.PathOf(fd)))
 	}
-	if !m.validName(in.Name2) {
+	if m.oddName(in.Name2) {
+		if out == nil || out.Status != stOK {
+			return nil
+		}
+	} else if !m.validName(in.Name2) {
 		return expectFail(in, out, fmt.Sprintf("target name %q (%d bytes) is not legal (announced name_max %d)", clip(in.Name2), len(in.Name2), m.Lim.NameMax))
 	}
 	src := m.Objs[sid]
@@ -951,7 +981,7 @@ func (m *Model) stepReaddir(in *In, out *Out) error {
 	if d.Kind != kDIR {
 		return expectFail(in, out, "readdir of a non-directory")
 	}
-	if out == nil {
+	if out == nil || in.BadCookie {
 		return nil
 	}
 	if out.Status != stOK {
@@ -1024,9 +1054,9 @@ func (m *Model) MetaDump() string {
 		case kDIR:
 			lines = append(lines, fmt.Sprintf("%s d", path))
 			for _, n := range sortedNames(o.Kids) {
-				p := path + "/" + n
+				p := path + "/" + escName(n)
 				if path == "/" {
-					p = "/" + n
+					p = "/" + escName(n)
 				}
 				walk(m.Objs[o.Kids[n]], p)
 			}
@@ -1038,4 +1068,31 @@ func (m *Model) MetaDump() string {
 	}
 	walk(m.Objs[m.Root], "/")
 	return strings.Join(lines, "\n")
+}
+
+// escName renders a name for paths in dumps and reports: bytes outside
+// printable ASCII, '/', '%' and space are %XX-escaped, so that a path is one
+// line and splits unambiguously.
+func escName(n string) string {
+	clean := true
+	for i := 0; i < len(n); i++ {
+		c := n[i]
+		if c <= 0x20 || c >= 0x7f || c == '/' || c == '%' {
+			clean = false
+			break
+		}
+	}
+	if clean {
+		return n
+	}
+	var b strings.Builder
+	for i := 0; i < len(n); i++ {
+		c := n[i]
+		if c <= 0x20 || c >= 0x7f || c == '/' || c == '%' {
+			fmt.Fprintf(&b, "%%%02X", c)
+		} else {
+			b.WriteByte(c)
+		}
+	}
+	return b.String()
 }
